@@ -13,6 +13,7 @@ import (
 	"os"
 	"path/filepath"
 	"sort"
+	"strings"
 
 	. "adharness/common"
 )
@@ -31,6 +32,8 @@ type OracleOut struct {
 	PerPair   map[string]int `json:"per_pair"`
 	NonPanic  map[string]int `json:"per_pair_nonpanic"`
 	Diffs     []Diff         `json:"diffs"`
+	Corpus    int            `json:"corpus_witnesses"`
+	CorpusNow []string       `json:"corpus_witnesses_that_agree_now"`
 	DiffCount map[string]int `json:"diff_count"`
 }
 
@@ -66,6 +69,36 @@ func oracleRun(o Opts, perPlan int, exh bool) OracleOut {
 	out.SrcPairs, out.Unpaired = sp, unp
 	rng := NewRng(o.Seed + 7919)
 	rep := map[string]*Diff{}
+	// committed witnesses of the known differences run first
+	if !exh && o.Extra != "" {
+		if b, err := os.ReadFile(o.Extra); err == nil {
+			for _, line := range strings.Split(string(b), "\n") {
+				line = strings.TrimSpace(line)
+				if line == "" || strings.HasPrefix(line, "#") {
+					continue
+				}
+				var wc struct {
+					Finding string `json:"finding"`
+					Case    PCase  `json:"case"`
+				}
+				if err := json.Unmarshal([]byte(line), &wc); err != nil {
+					Die("corpus: %v", err)
+				}
+				out.Corpus++
+				cl, d, _ := evalPair(wc.Case)
+				out.Evals++
+				if cl == 0 {
+					out.CorpusNow = append(out.CorpusNow, wc.Finding+" "+wc.Case.Kind+"."+wc.Case.G+"/"+wc.Case.C+" "+wc.Case.Type)
+					continue
+				}
+				k := "corpus|" + diffKey(d)
+				out.DiffCount[k]++
+				if rep[k] == nil {
+					rep[k] = d
+				}
+			}
+		}
+	}
 	for _, pl := range plans {
 		key := pl.Kind + "." + pl.P.G + "/" + pl.P.C
 		out.ReflPairs[pl.P.G+"/"+pl.P.C]++
@@ -102,7 +135,11 @@ func oracleRun(o Opts, perPlan int, exh bool) OracleOut {
 	}
 	sort.Strings(keys)
 	for _, k := range keys {
-		out.Diffs = append(out.Diffs, shrink(*rep[k]))
+		if strings.HasPrefix(k, "corpus|") {
+			out.Diffs = append(out.Diffs, *rep[k])
+		} else {
+			out.Diffs = append(out.Diffs, shrink(*rep[k]))
+		}
 	}
 	for _, p := range sp {
 		if out.ReflPairs[p.G+"/"+p.C] == 0 {
